@@ -132,10 +132,17 @@ def expand_once(case, root):
             dag.write_status(root)
             with open(os.path.join(root, "status.csv")) as f:
                 lines = f.read().split("\n")
+            # the writer does not quote: a step name / Params entry may contain commas (a
+            # parameter named "a,b" is legal); the name is recognised as the longest node
+            # name that prefixes the row, the 9 fields after it contain no comma
+            known = sorted((n["name"] for n in o["nodes"]), key=len, reverse=True)
             for ln in lines[1:]:
-                p = ln.split(",")
-                if len(p) >= 11:
-                    ser["status"].append([p[0], p[2], p[3], ",".join(p[10:])])
+                name = next((n for n in known if ln.startswith(n + ",")), None)
+                if name is None:
+                    name = ln.split(",")[0]
+                p = ln[len(name) + 1:].split(",")
+                if len(p) >= 10:
+                    ser["status"].append([name, p[1], p[2], ",".join(p[9:])])
                 else:
                     ser["status"].append([ln, "", "", ""])
             for name, sp, rp in calls:
